@@ -203,6 +203,8 @@ class Ctx:
 
 def replay(pid, payload, seed):
     """Re-runs a replay file on the current tree."""
+    if payload.get("kind") in ("proof", "build"):
+        return None     # the proof gate and the generated obligations are re-checked on every invocation anyway
     if payload.get("engine") in ("seq", "abandon"):
         rel = set(payload["relevant"]) if payload.get("relevant") else None
         name = payload.get("monitor_fn")
@@ -346,6 +348,7 @@ prop("C18",
 
 # ================================================================= more engines
 
+import lockgate
 THEOREMS = json.load(open(os.path.join(ROOT, "lib", "theorems.json")))
 DATA_OPS = {"PUB", "PUBN", "PULL", "ACK", "MOD", "STATS", "SR", "SO", "SS"}
 CTL_OPS = {"CT", "GT", "DT", "CS", "GS", "DS", "LT", "LS", "LTS", "REG"}
@@ -1334,9 +1337,11 @@ reg("C16", [eng_abandon, eng_burst, lambda ctx: eng_create_delete_race(ctx), lam
                "to its caller; a drop changes only the dropped task. " + CONC_NOTE,
     level_note="PARTIAL: 'messages handed to an abandoned consumer are redelivered after their deadline' is covered by the "
                "sequential model (C04 expiry theorems: a lease does not depend on who holds it) and by the abandon stream, "
-               "not by the actor model, whose data is abstract. The actor model also shows a residual race it cannot "
-               "exhibit on the implementation (stale attachment when a Delete overtakes the attach of a just-created "
-               "subscription, DESIGN 7/C16).")
+               "not by the actor model, whose data is abstract. The points at which a request can be abandoned are the "
+               "suspension points of its handler: that the code suspends exactly where the models have steps is checked "
+               "on every run as a syntactic fingerprint generated from /repo's sources "
+               "(deltio_suspension_points_as_modelled), not proved semantically.",
+    generated=[("lock-discipline", lockgate.lock_gate)])
 
 reg("C07", [eng_burst, eng_abandon, eng_pull_limit, eng_pushstress],
     rule="burst: 17-70 calls (Get/Pull/Ack/List, one or two DeleteSubscription, one or two Publish, sometimes DeleteTopic) "
@@ -1346,8 +1351,10 @@ reg("C07", [eng_burst, eng_abandon, eng_pull_limit, eng_pushstress],
     monitor=M.mon_no_hang, title="Every request terminates: no deadlock between topic and subscription actors",
     design_ref="7/C07",
     technique="Coq: small-step actor model; progress theorem (some server step is enabled whenever anything is "
-              "outstanding), explicit decreasing measure (bounded work), refutation for the pinned code; correspondence: "
-              "bursts larger than the mailboxes on the real server",
+              "outstanding), explicit decreasing measure (bounded work), refutation for the pinned code; lock-order "
+              "theorem (rank-ordered nesting excludes deadlock under any granting policy) instantiated with the lock "
+              "edges a translator regenerates from /repo's sources on every run; correspondence: bursts larger than the "
+              "mailboxes on the real server, multi-thread push-loop stress",
     level_text="Proved for the actor model (any number of topics, subscriptions and clients, any mailbox capacity >= 1, "
                "arrivals and drops at any time): with the draining delete some server-side step is enabled whenever "
                "anything is outstanding; every server-side step decreases an explicit measure, so the work between two "
@@ -1355,7 +1362,10 @@ reg("C07", [eng_burst, eng_abandon, eng_pull_limit, eng_pushstress],
                "deadlock state is reachable (capacity 2 and 16). " + CONC_NOTE,
     level_note="PARTIAL: the blocking Pull's own wait limit and the processing of StreamingPull control messages are "
                "consumers of ONE subscription and live in the ConcSub model (C06/C12: internal_terminates, C12_progress); "
-               "fairness of the tokio scheduler (an enabled step is eventually taken) is assumed, not modelled.")
+               "fairness of the tokio scheduler (an enabled step is eventually taken) is assumed, not modelled. The lock "
+               "theorems are about the nesting edges a source scanner (lockscan, trusted to over-approximate) extracts "
+               "from /repo on every run.",
+    generated=[("lock-discipline", lockgate.lock_gate)])
 
 
 def eng_requeue_order(ctx):
